@@ -114,8 +114,9 @@ def lookups_unconditional(run, rule, ast):
                                    if dd.get("init") is not None and not dd["type"].endswith("&") and any(x in subs for x in astq.walk(dd["init"]))}
 
                     def is_own_null_test(cn):
-                        c0 = astq.strip(cn) if cn else {}
-                        return c0.get("k") == "UnaryOperator" and c0.get("op") == "!" and astq.strip(c0["c"][0]).get("k") == "DeclRefExpr" and astq.strip(c0["c"][0])["ref"]["did"] in lookup_vars
+                        cf = astq.canon(cn) if cn else ("expr", "?")
+                        cf = cf[1] if cf[0] == "not" else cf
+                        return cf[0] == "null" and cf[1].startswith("v#") and int(cf[1][2:]) in lookup_vars
                     bad = [astq.text(cn) if cn else "?" for cls, cn, blk in (crules._cdep_conds(f, sub[0]) or []) if cls not in ("loop", "trace") and not is_own_null_test(cn)]
                     run.instance(rule, "%s: the look-up of %s runs for every record" % (crules.short(f), d["name"]), (f["file"], sub[0]["l"]), ok=not bad)
                     for t in bad:
